@@ -119,7 +119,7 @@ def run_case(ctx, kind_, idx):
     Slot.case = cid
     strat = (R.ALL + ["FunctionRFA"])[int(rng.integers(0, 7))]
     x, y, meta = R.gen_series(rng, 2, 60, ties_share=0.25, long_share=R.LONG_SHARE,
-                              force_m=int(rng.integers(66000, 90001)) if kind_ == "huge" else None)
+                              force_m=gen.huge_size(rng) if kind_ == "huge" else None)
     n = R.gen_n(rng)
     if kind_ == "huge":           # a day of per-second averages, smallest factors, every strategy in turn
         n = int(rng.choice([2, 3]))
